@@ -34,6 +34,7 @@ def run(ck):
     doc_layout_probes(ck)
     range_let_probes(ck)
     override_doc_probes(ck)
+    named_order_probes(ck)
     ck.count("generated", len(progs) + nfaults, nontriv if not nfaults else set(range(len(nontriv) + nfaults)),
              sample={"files": progs[0].files}, seeded_faults=nfaults,
              coverage=semcheck.cov_summary(cov, ["doc:", "hint:", "classref:", "decl:"]), llvm_tblgen_audit=audited)
@@ -181,6 +182,29 @@ def override_doc_probes(ck):
             ck.fail(["C19", "doc", "let-override-entry"], "hover at %r shows the documentation %r; the comment directly above the declaration it resolves to is %r" % (marker, got, want),
                     {"files": {"/main.td": text}, "root": "/main.td", "detail": {"probe": "override-doc", "goto": ans[1]}}, json.dumps(got), json.dumps(want))
     ck.count("override_doc_probes", len(probes), {t for t, _, _ in probes}, sample={"text": probes[0][0]})
+
+
+def named_order_probes(ck):
+    """hints label the positional arguments in front of the first named one (those bind by position); nothing behind a named
+    argument gets a positional label, whatever order the arguments are written in"""
+    probes = [
+        ("class A<int a, int b>; def X : A<a=7, 8>;", []),
+        ("multiclass M<int m, int n> { def _x; } defm D : M<n=7, 8>;", []),
+        ("class A<int a, int b, int c>; def X { list<A> l = [A<1, c=3, 2>]; }", [("1, c", "a:")]),
+        ("class A<int a, int b>; def X : A<7, b=8>;", [("7, b", "a:")]),
+        ("class A<int a, int b, int c>; def X : A<1, 2, c=3>; def Y : A<c=3>;", [("1, 2", "a:"), ("2, c", "b:")]),
+    ]
+    outs = core.impl(["ws " + json.dumps({"files": {"/main.td": t}, "root": "/main.td", "queries": [["inlay_hint", "/main.td", 0, len(t.encode())]]}) for t, _ in probes], tag="nmo19")
+    for (t, want), o in zip(probes, outs):
+        try:
+            got = sorted((h[0], h[1]) for h in (json.loads(o)[0] or []))
+        except Exception:
+            continue
+        exp = sorted((t.index(m), lab) for m, lab in want)
+        if got != exp:
+            ck.fail(["C19", "hint", "positional-behind-named"], "the hints of %r are %s" % (t[:70], got), {"files": {"/main.td": t}, "root": "/main.td", "detail": {"probe": "named-order"}},
+                    json.dumps(got), json.dumps(exp))
+    ck.count("named_order_probes", len(probes), {t for t, _ in probes}, sample={"text": probes[0][0]})
 
 
 def replay(ck, path):
